@@ -24,6 +24,10 @@ structure CInst where
   chkOp : Option Nat := none
   crtOps : List (Nat × Nat) := []      -- (op, call time)
   startDue : Option Nat := none        -- a Start succeeded: by then the instance leads or follows (its first attempt is over)
+  lastMiss : Option Nat := none        -- a periodic check of this follower found no record then
+  lastCreate : Nat := 0                -- its latest Create call
+  trigs : List Nat := []               -- the two latest moments at which something could have started a round (see the monitors)
+  everCreated : Bool := false
   deriving Repr, Inhabited
 
 structure State where
@@ -133,7 +137,20 @@ def step (s : State) (te : TEv) : R State :=
       if key ≠ s.key then pure s else
       let s := { s with ops := (op, i, kind) :: s.ops }
       match kind, s.get i with
-      | .create, some x => pure (s.set { (act p x .createCall) with crtOps := (op, t) :: x.crtOps })
+      | .create, some x =>
+        -- C17: every acquisition round waits its jitter (at least the regenerated minimum) before its first attempt.  A
+        -- Create that is the first for a while (no round of this instance can still be running), issued by a tracked
+        -- follower sooner than that after the periodic check that found the key vacant, with no watch notification in the
+        -- jitter window that could have started a round of its own, is a round that did not wait.
+        let roundSpan := 2000000000
+        let noJitter := x.vac.isSome && !x.flag &&
+          (match x.lastMiss, x.trigs with
+           | some r, [t1] => r == t1 && decide (t < r + Gen.jitterMin)
+           | some r, t1 :: t0 :: _ => r == t1 && decide (t < r + Gen.jitterMin) && decide (t0 + Gen.jitterMax + p < t)
+           | _, _ => false) &&
+          (!x.everCreated || decide (x.lastCreate + roundSpan < t))
+        if noJitter then reject s!"instance {i}: Create at {t}, {repr (x.lastMiss.map fun r => t - r)} ns after the periodic check that found the key vacant: the round did not wait its jitter (at least {Gen.jitterMin} ns)"
+        else pure (s.set { (act p x .createCall) with crtOps := (op, t) :: x.crtOps, lastCreate := t, everCreated := true, lastMiss := none })
       | _, _ => pure s
     | .site op fn =>
       if fn ≠ "checkKeyAndReelect" then pure s else
@@ -177,7 +194,7 @@ def step (s : State) (te : TEv) : R State :=
             match x.vac with
             | some v =>
               (match Vac.step (Vac.Par.ofLat p x.cfg.takeover) v (.checkRet (isMiss r)) with
-               | some v' => pure (s.set { x with vac := some v', chkOp := none })
+               | some v' => pure (s.set { x with vac := some v', chkOp := none, trigs := (t :: x.trigs).take 2, lastMiss := if isMiss r then some t else x.lastMiss })
                | none =>
                  match v.chk with
                  | .seen _ true => reject s!"instance {i}: a periodic check applied on the vacant key returned a record"
@@ -185,6 +202,10 @@ def step (s : State) (te : TEv) : R State :=
             | none => pure (s.set { x with chkOp := none })
           else pure s
         | none => pure s
+    | .wev _ i _ _ =>
+      match s.get i with
+      | some x => pure (s.set { x with trigs := (t :: x.trigs).take 2 })
+      | none => pure s
     | .expire key _ => if key = s.key then pure (broadcast p { s with keyVacant := true } .vacate) else pure s
     | .extDelete key _ => if key = s.key then pure (broadcast p { s with keyVacant := true } .vacate) else pure s
     | .extPut key _ _ => if key = s.key then pure (broadcast p { s with keyVacant := false } .fill) else pure s
